@@ -1,6 +1,11 @@
 //! E2 — program generation engine: properties that quantify over programs.
 
+mod c05;
 mod c06;
+mod c15;
+mod c16;
+mod c17;
+mod c19;
 mod driver;
 mod e2;
 mod pat;
@@ -45,7 +50,12 @@ pub fn replay_corpus(ctx: &Ctx, f: ReplayFn) -> vcore::SubReport {
 
 fn replay_case(prop: &str, sub: &str, case: Value) -> Result<(), String> {
     match prop {
+        "C05" => c05::replay(sub, case),
         "C06" => c06::replay(sub, case),
+        "C15" => c15::replay(sub, case),
+        "C16" => c16::replay(sub, case),
+        "C17" => c17::replay(sub, case),
+        "C19" => c19::replay(sub, case),
         other => Err(format!("HARNESS: progen has no replay for {other}")),
     }
 }
@@ -90,7 +100,12 @@ fn main() {
     };
     let ctx = Ctx::new(&args[0], tier);
     let verdict = match ctx.prop.as_str() {
+        "C05" => c05::run(&ctx),
         "C06" => c06::run(&ctx),
+        "C15" => c15::run(&ctx),
+        "C16" => c16::run(&ctx),
+        "C17" => c17::run(&ctx),
+        "C19" => c19::run(&ctx),
         other => {
             eprintln!("progen: property {other} is not served by this engine");
             std::process::exit(EXIT_INCONCLUSIVE)
